@@ -86,6 +86,14 @@ func genE2E(seed int64, idx int, profile string, scale int) scen.E2E {
 	case "ctx":
 		cfg.Codec = []string{svc.CodecBytes, svc.CodecBytes, svc.CodecPB, svc.CodecJSON}[rng.Intn(4)]
 		p.NOps = (10 + rng.Intn(30)) * scale
+		switch rng.Intn(4) {
+		case 0:
+			p.Via = "transport"
+			p.HookDelayUs = 1 + rng.Intn(8000)
+		case 1:
+			p.Via = "client"
+			p.HookDelayUs = 1 + rng.Intn(8000)
+		}
 	}
 	if cfg.Frag > 0 && cfg.Frag < 64 {
 		// byte-at-a-time delivery of a 300 KB payload costs 10^5 reads per message
